@@ -74,6 +74,13 @@ func NewBool(b bool) Set {
 	return False
 }
 
+// hashMember mixes a member's hash before it is XOR-folded into the hash of the set that holds
+// it. The trie library trusts equal hashes, so set hashes must not collide structurally: without
+// mixing, parts shared by several members (b: 3 in {(a: 1, b: 3), (a: 2, b: 3)}) cancel out.
+func hashMember(v Value, seed uintptr) uintptr {
+	return hash.Uintptr(v.Hash(seed), 0x9e3779b9)
+}
+
 // Hash computes a hash for a genericSet.
 func (s GenericSet) Hash(seed uintptr) uintptr {
 	// Fold the members order-independently, then mix the result: the hash of {x} must differ
@@ -81,7 +88,7 @@ func (s GenericSet) Hash(seed uintptr) uintptr {
 	// (the trie library trusts equal hashes).
 	var h uintptr
 	for e := s.Enumerator(); e.MoveNext(); {
-		h ^= e.Current().Hash(0)
+		h ^= hashMember(e.Current(), 0)
 	}
 	return hash.Uintptr(h, seed)
 }
